@@ -4,7 +4,9 @@ package c04
 //
 //   - reader.maxNestedLoads = 16 (129dd3d): chains of objects loaded inside each other, 1 … 300
 //     long (thorough: 5000), every object looked up alone on a fresh reader (byte-level model,
-//     c04.file) and in sequences on one reader (the caches on a chain, c04.nest);
+//     c04.file) and in sequences on one reader (the caches on a chain, c04.nest); since the
+//     repair of C04/nested-limit-answer-depends-on-earlier-lookups a warm reader must answer
+//     as a fresh one on every chain, however long;
 //   - core/objstm.go (78b7a87, c437385): header offsets at len(decoded)-1 / len / len+1 / 2^31 /
 //     2^62 / 2^63-1, /N at what the header spells, one more, 2^31, 2^62, 2^63-1, /First at the
 //     header, at len(decoded), one more, 2^62; every index asked twice (c04.osm);
@@ -38,8 +40,10 @@ const maxNestedLoads = 16 // reader/reader.go, as documented by 129dd3d
 
 // chainSpec describes a chain file: integers A_1 … A_D (object numbers 1 … D); for i < D,
 // A_i is member 0 of the object stream S_i (object number D+i) whose /Length is the
-// reference `A_(i+1) 0 R`; A_D is a plain object. Top: a plain stream T (object number 2D)
-// whose /Length is `A_1 0 R`. Loading A_i loads A_(i+1) … A_D inside it: D-i+1 nested loads.
+// reference `A_(i+1) 0 R`; A_D is a plain object. B_i (object number 2D+2+i, i < D) is
+// member 1 of S_i: looking it up opens S_i without caching A_i. Top: a plain stream T (object
+// number 2D) whose /Length is `A_1 0 R`. Loading A_i (or B_i) loads A_(i+1) … A_D inside it:
+// D-i+1 nested loads.
 // Split > 0: the containers of A_1 … A_Split (and T) are written in a second revision that
 // also overrides stale plain definitions of those numbers made in the first.
 type chainSpec struct {
@@ -59,6 +63,7 @@ type chainFile struct {
 
 func (sp chainSpec) numS(i int) int { return sp.D + i }
 func (sp chainSpec) numT() int      { return 2 * sp.D }
+func (sp chainSpec) numB(i int) int { return 2*sp.D + 2 + i }
 
 func buildChain(sp chainSpec) chainFile {
 	p := writers.NewPDF(sp.EOL)
@@ -98,16 +103,19 @@ func buildChain(sp chainSpec) chainFile {
 	// a scratch writer first (the bytes are the same wherever they stand).
 	for i := 1; i < d; i++ {
 		i, v := i, val
+		members := []writers.ObjStmMember{{Num: i, Body: fmt.Sprint(v)}, {Num: sp.numB(i), Body: fmt.Sprint(4000 + i)}}
 		scratch := writers.NewPDF(sp.EOL)
-		scratch.ObjStm(sp.numS(i), []writers.ObjStmMember{{Num: i, Body: fmt.Sprint(v)}}, sp.Flate, i+1)
+		scratch.ObjStm(sp.numS(i), members, sp.Flate, i+1)
 		val = scratch.LastStreamLen
 		cf.want[i] = fmt.Sprintf("i%d", v)
+		cf.want[sp.numB(i)] = fmt.Sprintf("i%d", 4000+i)
 		cf.want[sp.numS(i)] = fmt.Sprintf("S%d", scratch.LastStreamLen)
 		write(i, func() {
-			off := p.ObjStm(sp.numS(i), []writers.ObjStmMember{{Num: i, Body: fmt.Sprint(v)}}, sp.Flate, i+1)
+			off := p.ObjStm(sp.numS(i), members, sp.Flate, i+1)
 			e := entriesFor(i)
 			e[sp.numS(i)] = writers.XEntry{Type: 1, F1: off}
 			e[i] = writers.XEntry{Type: 2, F1: int64(sp.numS(i)), F2: 0}
+			e[sp.numB(i)] = writers.XEntry{Type: 2, F1: int64(sp.numS(i)), F2: 1}
 		})
 	}
 	{
@@ -138,12 +146,13 @@ func buildChain(sp chainSpec) chainFile {
 		cf.depth[i] = d - i + 1
 		if i < d {
 			cf.depth[sp.numS(i)] = d - i + 1 // the stream itself, then A_(i+1) …
+			cf.depth[sp.numB(i)] = d - i + 1 // B_i, then (opening S_i) A_(i+1) …
 		}
 	}
 	if sp.Top {
 		cf.depth[sp.numT()] = d + 1
 	}
-	size := 2*d + 3
+	size := 3*d + 3
 	if sp.Split > 0 {
 		// stale definitions that revision 2 overrides
 		for i := 1; i <= sp.Split; i++ {
@@ -158,7 +167,7 @@ func buildChain(sp chainSpec) chainFile {
 		}
 		p.XrefStream(2*d+2, rev2, "/Root 1 0 R", prev, [3]int{1, 4, 2}, sp.Flate, 0, size)
 	}
-	cf.maxNum = 2*d + 2
+	cf.maxNum = 3*d + 2
 	cf.data = p.Buf.Bytes()
 	return cf
 }
@@ -166,7 +175,7 @@ func buildChain(sp chainSpec) chainFile {
 // nestCase is the replayable case: the file and the sequence of lookups on one reader.
 type nestCase struct {
 	Nest chainSpec `json:"nest"`
-	Ops  []string  `json:"ops"` // a<i> | s<i> | t | c
+	Ops  []string  `json:"ops"` // a<i> | b<i> | s<i> | t | c
 }
 
 func (sp chainSpec) numOf(op string) (n int, ok bool) {
@@ -180,6 +189,9 @@ func (sp chainSpec) numOf(op string) (n int, ok bool) {
 	case strings.HasPrefix(op, "s"):
 		fmt.Sscanf(op[1:], "%d", &i)
 		return sp.numS(i), true
+	case strings.HasPrefix(op, "b"):
+		fmt.Sscanf(op[1:], "%d", &i)
+		return sp.numB(i), true
 	}
 	return 0, false
 }
@@ -211,11 +223,20 @@ func genNestOps(r *hx.Rng, sp chainSpec) []string {
 			ops = append(ops, fmt.Sprintf("a%d", pickA()))
 		}
 		ops = append(ops, "a1")
+	case 2: // an object stream opened through its second member (objStmCache filled, its first
+		// member not in objCache), then the objects above it, whose chains pass through it
+		if d > 1 {
+			j := max(1, min(d-1, d-maxNestedLoads+r.Range(0, 2)))
+			ops = append(ops, fmt.Sprintf("b%d", j), fmt.Sprintf("a%d", max(1, j-1)), "a1",
+				fmt.Sprintf("b%d", max(1, j-1)), fmt.Sprintf("a%d", j))
+		}
 	}
 	for k, m := 0, r.Range(3, 12); k < m; k++ {
-		switch c := r.Intn(12); {
+		switch c := r.Intn(14); {
 		case c == 0:
 			ops = append(ops, "c")
+		case c >= 12 && d > 1:
+			ops = append(ops, fmt.Sprintf("b%d", max(1, min(d-1, pickA()))))
 		case c < 3 && sp.Top:
 			ops = append(ops, "t")
 		case c < 5 && d > 1:
@@ -362,7 +383,8 @@ func runNest(c *hx.Ctx, k nestCase, sample []int) {
 		}
 		key := "C04/answer-depends-on-earlier-lookups"
 		if !fits {
-			// known since 129dd3d: objCache is consulted before the limit is counted
+			// 129dd3d consulted objCache and objStmCache before it counted the nested loads:
+			// beyond the limit a warm reader answered what a fresh one refuses
 			key = "C04/nested-limit-answer-depends-on-earlier-lookups"
 			if vals[i] != fresh {
 				c.Count("nest-warm-answer-differs-from-fresh-reader")
@@ -385,12 +407,12 @@ func nestSample(r *hx.Rng, sp chainSpec) []int {
 			out = append(out, n)
 		}
 	}
-	if 2*d+3 <= 90 {
-		for n := -1; n <= 2*d+3; n++ {
+	if 3*d+3 <= 130 {
+		for n := -1; n <= 3*d+3; n++ {
 			add(n)
 		}
 	} else {
-		for _, base := range []int{0, d} { // the A_i, then the S_i
+		for _, base := range []int{0, d, 2*d + 2} { // the A_i, the S_i, the B_i
 			for n := 0; n <= 4; n++ {
 				add(base + n)
 			}
